@@ -169,14 +169,31 @@ func (t *tcpHandler) OnShutdown() {
 func (t *tcpHandler) sendCloseMsg() {
 	// send close-package
 	closeMsg := t.server.protocol.GetCloseMsg()
+	var wg sync.WaitGroup
 	t.conns.Range(func(key, val interface{}) bool {
 		conn := val.(*connInfo)
 		if err := conn.conn.SetReadDeadline(time.Now()); err != nil {
 			TLOG.Errorf("SetReadDeadline: %w", err)
 		}
-		t.sendCloseMsgTo(conn, closeMsg)
+		wg.Add(1)
+		go func() {
+			defer wg.Done()
+			t.sendCloseMsgTo(conn, closeMsg)
+		}()
 		return true
 	})
+	// a client that has stopped reading (the write queues behind a response it does not
+	// drain) must not hold up the shutdown beyond its context: wait a bounded time, the
+	// write to such a connection goes on in the background
+	done := make(chan struct{})
+	go func() {
+		wg.Wait()
+		close(done)
+	}()
+	select {
+	case <-done:
+	case <-time.After(time.Second):
+	}
 }
 
 // sendCloseMsgTo sends the reconnect-message to one connection, at most once
